@@ -6,6 +6,7 @@ import HvProofs.Hds
 import HvProofs.Overlay
 import HvProofs.Qcow2Stream
 import HvProofs.Resolve
+import HvProps.C10
 namespace Hv.C07
 open Hv Hv.Layers
 
@@ -557,5 +558,72 @@ example : exHdd.open (hddImagePath exHdd ⟨true, [['p'], ['x']]⟩ ['/','o','/'
 example : vmdkParentPath exHdd ⟨true, [['p'], ['x']]⟩ ['C',':','\\','v','\\','y','\\','i'] = ⟨true, [['p'], ['y'], ['i']]⟩ := by decide
 
 end resolution
+
+/-! ### VMDK: the parent link of a descriptor is never silently dropped
+
+  `VMDK.__init__` decides from the parsed descriptor whether a parent must be opened (`VmdkDesc.parentLink`, used by the
+  driver's `vmdkOpenDescriptorP`).  Composed with `DiskDescriptor.parse` on the whole text
+  (`HvProofs/VmdkDescParse.lean`): what counts is the **last** `parentCID` / `parentFileNameHint` assignment. -/
+section vmdk_link
+open Hv.VmdkDesc
+
+/-- **vmdk_delta_link_never_dropped**: for every descriptor text whose effective `parentCID` is not `ffffffff`, the
+    image is never opened as a base disk: either the parent named by the effective `parentFileNameHint` has to be
+    opened (and `open_parent` raises when it cannot be, `vmdk_parent_resolution`), or — the hint line being absent —
+    the descriptor is refused.  Any number of lines, any order, repeated assignments, any other content. -/
+theorem vmdk_delta_link_never_dropped (lines : List Str) (hne : lines ≠ []) (h : ∀ l ∈ lines, '\n' ∉ l) (cid : Str)
+    (hc : (lines.filterMap (lineAssigns false "parentCID".toList)).getLast? = some cid)
+    (hn : cid ≠ "ffffffff".toList) :
+    parentLink (parse (joinLines lines)) =
+      (match (lines.filterMap (lineAssigns false "parentFileNameHint".toList)).getLast? with
+       | none => .error ()
+       | some hint => .ok (some hint)) ∧
+    parentLink (parse (joinLines lines)) ≠ .ok none := by
+  have e1 := (Hv.C10.descriptor_settings_last_assignment_wins lines hne h "parentCID".toList).1
+  have e2 := (Hv.C10.descriptor_settings_last_assignment_wins lines hne h "parentFileNameHint".toList).1
+  have key : parentLink (parse (joinLines lines)) =
+      (match (lines.filterMap (lineAssigns false "parentFileNameHint".toList)).getLast? with
+       | none => .error ()
+       | some hint => .ok (some hint)) := by
+    unfold parentLink
+    rw [e1, hc, e2]
+    simp only [hn, if_false]
+    cases (lines.filterMap (lineAssigns false "parentFileNameHint".toList)).getLast? <;> rfl
+  refine ⟨key, ?_⟩
+  rw [key]
+  cases (lines.filterMap (lineAssigns false "parentFileNameHint".toList)).getLast? <;> simp
+
+/-- **vmdk_base_iff**: a descriptor is opened as a base disk exactly when its effective `parentCID` is `ffffffff`;
+    without any `parentCID` line it is refused -/
+theorem vmdk_base_iff (lines : List Str) (hne : lines ≠ []) (h : ∀ l ∈ lines, '\n' ∉ l) :
+    (parentLink (parse (joinLines lines)) = .ok none ↔
+      (lines.filterMap (lineAssigns false "parentCID".toList)).getLast? = some "ffffffff".toList) ∧
+    ((lines.filterMap (lineAssigns false "parentCID".toList)).getLast? = none →
+      parentLink (parse (joinLines lines)) = .error ()) := by
+  have e1 := (Hv.C10.descriptor_settings_last_assignment_wins lines hne h "parentCID".toList).1
+  have e2 := (Hv.C10.descriptor_settings_last_assignment_wins lines hne h "parentFileNameHint".toList).1
+  unfold parentLink
+  rw [e1, e2]
+  cases hc : (lines.filterMap (lineAssigns false "parentCID".toList)).getLast? with
+  | none => simp
+  | some cid =>
+    by_cases hn : cid = "ffffffff".toList
+    · simp [hn]
+    · have hn' : ¬ cid = ['f', 'f', 'f', 'f', 'f', 'f', 'f', 'f'] := by simpa using hn
+      simp only [hn, if_false]
+      cases (lines.filterMap (lineAssigns false "parentFileNameHint".toList)).getLast? <;> simp [hn']
+
+/-- non-vacuity: a delta descriptor without hint is refused, with an (overridden) hint the last one is used,
+    and a base descriptor is a base -/
+example : parentLink (parse (joinLines ["CID=1".toList, "parentCID=0123abcd".toList, "RW 8 SPARSE \"d.vmdk\"".toList]))
+    = .error () := by decide
+example : parentLink (parse (joinLines ["parentCID=0123abcd".toList, "parentFileNameHint=\"a.vmdk\"".toList,
+    "RW 8 SPARSE \"d.vmdk\"".toList, "parentFileNameHint = \"b c.vmdk\"".toList])) = .ok (some "b c.vmdk".toList) := by
+  decide
+example : parentLink (parse (joinLines ["parentCID=ffffffff".toList])) = .ok none := by decide
+example : (["CID=1".toList, "parentCID=0123abcd".toList].filterMap (lineAssigns false "parentCID".toList)).getLast?
+    = some "0123abcd".toList := by decide
+
+end vmdk_link
 
 end Hv.C07
